@@ -51,6 +51,15 @@ theorem C10_tie_avs_owner_lists :
        ("Keeper.UpdateAVSInfo", "avsInfo.Info.AvsOwnerAddress contains params.CallerAddress"),
        ("Keeper.CreateAVSTask", "avsInfo.AvsOwnerAddress contains params.CallerAddress")] := by decide
 
+/-- SetTaskResultInfo compares the signer (`addr` = req.FromAddress = the field GetSigners returns) with
+Info.OperatorAddress exactly once, as the first top-level statement, *before* `switch info.Stage`: it
+dominates every phase branch (`admitTaskResult` has the comparison outside its `match`). A comparison moved
+into one case clause shows up here as `case:…`. -/
+theorem C10_tie_task_result_signer_check :
+    taskResultSignerCheckSites = ["top-level:0:before-switch"] ∧
+    taskResultStageCases = ["types.TwoPhaseCommitOne", "types.TwoPhaseCommitTwo", "default"] ∧
+    taskResultSignerArg = "ctx, req.FromAddress, req.Info" ∧ taskResultGetSignersField = "m.FromAddress" := by decide
+
 /-- oracle branch of SigVerificationDecorator: `VerifySignature` is no longer a statement of its own; it
 stands in the condition of an `if` whose body returns an error (`admitOraclePrice` requires `sig = valid`).
 Re-introducing F-10a (dropping the result, or dropping the call) flips one of the two literals. -/
